@@ -171,6 +171,8 @@ class Flattener:
             if g is None or g.qualname in self.stack or g.qualname == self.fi.qualname:
                 return None
             node = const_substituted(self.ix, g)
+            if g.module != self.fi.module and not self._graft_scope(g, node):
+                return None         # a method of a base class in another module whose free names mean something else here
             decos = [ast.unparse(d) for d in node.decorator_list]
             if any(d not in ("classmethod", "staticmethod") for d in decos):
                 return None
